@@ -63,6 +63,7 @@ type Object struct {
 	Epoch  int
 	Name   string
 	Global bool
+	NoInit bool // global of a package whose initialiser is not interpreted
 	// maps
 	IsMap bool
 	Keys  []Value
